@@ -22,6 +22,24 @@ Mechanism keys
       forwards: exception-reached-caller, differs-from-rejection, cache-stale)
   afterwards/<callback-kind>/<op-kind>/diverged
   harness/nondeterministic-replay                    (replay did not rebuild the twin's state)
+
+Default-handling strata (run first, before the harness pushes its own exception handlers; helper
+_c19_shapes.py).  The enumeration above runs with the harness's handlers on both exception-handler
+stacks and injects E("message").  Histories of the family 'default' (case ids dflt:<n>, counters
+dflt:*) run with NOTHING pushed: a failing change handler is funnelled into the library's own default
+handlers, which are observed through the logging module (a capturing handler at the root of the logging
+hierarchy, the only one while the strata run; the console fallback sys.__stderr__ is swallowed and counted).  Their exceptions come
+from a catalogue of SHAPES of the four classes: no argument, string / empty / str-subclass, a non-string
+first argument (int, None, bytes, object, dict), a tuple, an exception instance, several arguments, a
+__cause__, the standard subclasses (NotImplementedError, RecursionError incl. the one the interpreter
+really raises and the recursion message, UnicodeDecode/EncodeError, AttributeError(name=, obj=),
+DelegationError) and user subclasses with a raising __str__ or an __init__ that passes nothing on;
+8 shapes per change-handler tick, TraitError("message") + 1 shape per other tick, walking a per-history
+shuffle of the catalogue.  Same oracle and same keys (that the failure is *logged* is counted, not
+required).  Family 'hostile' (case ids hostile:<n>, counters hostile:*) injects, at change-handler ticks
+only, first arguments whose `==` raises or has no truth value; it never stops at a violation and its keys
+are post-commit/<kind>/handler-failure-not-contained/<class>(eq-hostile-first-argument) (the failure
+reached the caller, or an enclosing notification contained it after handlers were skipped).
 """
 import gc
 import warnings
@@ -46,11 +64,36 @@ from traits.trait_set_object import TraitSet, TraitSetEvent
 
 import sys
 
+from vf.monitors import _c19_shapes as shapes
+
 # every kind of user callback the harness hands to traits (each calls FP.tick(kind) first)
 _KINDS = ("validator-function", "validator-traittype", "alt-function", "alt-traittype", "alt-item",
           "tuple-member", "item-validator", "key-validator", "value-validator", "prop-validator",
           "default-method", "default-factory", "getter", "cached-getter", "setter",
           "adapter-factory", "handler-static", "handler-otc", "handler-observe")
+
+def _default_handling_gates(m, mh):
+    """Gates of the default-handling strata (quick values; thorough = x m, hostile x mh)."""
+    g = {"dflt:histories": 48, "dflt:faults_injected": 6000, "dflt:postcommit_judged": 5000,
+         "dflt:precommit_judged": 900, "dflt:followup_ops_compared": 26000,
+         "dflt:faults:handler-static": 1800, "dflt:faults:handler-otc": 1700,
+         "dflt:faults:handler-observe": 1200,
+         "dflt:injected_exception_logged_by_default_handler": 5000,
+         "dflt:handler-faults:subclass-instance": 1600}
+    for fam in ("TraitError", "ValueError", "AttributeError", "RuntimeError"):
+        g["dflt:family:" + fam] = 1200
+    for mech in ("static", "otc", "observe"):
+        for grp in ("noargs", "tuple", "exception", "custom-init"):
+            g["dflt:handler-shape:%s:%s" % (mech, grp)] = 40
+        for grp in ("str", "non-str", "several", "chained", "subclass", "hostile-str"):
+            g["dflt:handler-shape:%s:%s" % (mech, grp)] = 90
+    g = {k: v * m for k, v in g.items()}
+    h = {"hostile:histories": 8, "hostile:faults_injected": 1600,
+         "hostile:handler-shape:static:eq-hostile": 500, "hostile:handler-shape:otc:eq-hostile": 600,
+         "hostile:handler-shape:observe:eq-hostile": 400}
+    g.update({k: v * mh for k, v in h.items()})
+    return g
+
 
 META = {
     "level": "fault_enumeration",
@@ -75,7 +118,21 @@ META = {
              "Per history the fault space is ENUMERATED: every operation j x every user-callback "
              "tick k <= n_j (learnt from a fault-free twin) x E in {TraitError, ValueError, "
              "AttributeError, RuntimeError}. distinct_nontrivial = distinct (operation kind, "
-             "callback kind, role, E, outcome class) signatures of injected faults."),
+             "callback kind, role, E, outcome class) signatures of injected faults. "
+             "PLUS default-handling strata, run with nothing pushed on either exception-handler stack of "
+             "the library (its default handlers observed through a capturing logging handler at the "
+             "root of the logging hierarchy): family 'default' = histories of the same generator (strata general / "
+             "sync / property / lifetime / deferred / quiet / adapt, each shard starting the cycle "
+             "elsewhere) whose injected exceptions walk a catalogue of 100 shapes of the four classes "
+             "(no argument; str / empty / str subclass; non-str first argument int, None, bytes, object, "
+             "dict; tuple; exception instance; several arguments; __cause__ set; NotImplementedError, "
+             "RecursionError (really raised by the interpreter, with the recursion message, bare, int), "
+             "RuntimeError with the recursion message, UnicodeDecodeError / UnicodeEncodeError, "
+             "AttributeError(name=, obj=), DelegationError; user subclasses with a raising __str__ or an "
+             "__init__ passing nothing to BaseException): 8 shapes per change-handler tick, "
+             "TraitError(str) + 1 shape per other tick; family 'hostile' = change-handler ticks x 5 "
+             "classes x first arguments whose == raises / has no truth value (numpy-like), with a "
+             "second-argument control, never truncated by a violation (own keys)."),
     "phases": [{"name": "main", "flavour": "P", "shards": 16}],
     "gates": {
         "quick": dict({"faults:" + k: 60 for k in _KINDS}, **{
@@ -101,7 +158,7 @@ META = {
             "notifications_after_failed_quiet_set": 2000,
             # nested deciding callbacks (sync_trait forwarding)
             "nested_deciding_judged": 400, "nested_rejection_twin_compared": 300,
-            "nested_followup_ops_compared": 1400}),
+            "nested_followup_ops_compared": 1400}, **_default_handling_gates(1, 1)),
         "thorough": dict({"faults:" + k: 1000 for k in _KINDS}, **{
             "histories": 3000, "histories:property": 500, "histories:adapt": 250,
             "histories:quiet": 300, "histories:sync": 250, "histories:deferred": 300,
@@ -123,7 +180,7 @@ META = {
             "faults:in-quiet-set": 9000, "faults:in-multi-set:later-name": 8000,
             "notifications_after_failed_quiet_set": 30000,
             "nested_deciding_judged": 6000, "nested_rejection_twin_compared": 4500,
-            "nested_followup_ops_compared": 21000}),
+            "nested_followup_ops_compared": 21000}, **_default_handling_gates(8, 10)),
     },
     "exhaustive_parts": ("for each generated history, all (operation j, callback tick k, exception "
                          "type E) fault positions are enumerated (k capped at 40 per operation; "
@@ -155,6 +212,13 @@ META = {
         "the harness itself keeps no reference to injected exceptions, tracebacks or replaced values",
         "a cached property already stale before the operation (a quiet set invalidates nothing) is "
         "not held against the operation",
+        "default-handling strata: the library's default exception handlers are those in force in a "
+        "fresh process before anything is pushed (the strata run first); what they log "
+        "(any logger) with exc_info is the exception channel there; that a contained failure is logged at all "
+        "is counted (injected_exception_logged_by_default_handler), not required",
+        "an exception instance of a subclass of one of the four classes, or with any argument tuple, is "
+        "an exception of that class in the sense of the quantifier; 'reaches the caller unchanged' is "
+        "judged on the concrete type",
         "notifications whose subject is a property whose getter was faulted post-commit are exempt, "
         "and so is the `old` value of the next notification of a cached property whose cache could "
         "not be refilled (both rules verified necessary and sufficient on the unchanged tree)",
@@ -162,8 +226,17 @@ META = {
     "case_timeout": 300,
 }
 
-EXCS = (TraitError, ValueError, AttributeError, RuntimeError)
+# exception *shapes* (vf/monitors/_c19_shapes.py): .cls, .__name__, .label, .make(n, kind) -> fresh instance.
+# The enumeration under the harness's own exception handlers injects E("message") of the four classes;
+# the default-handling strata draw from the whole catalogue of argument shapes and subclasses.
+EXCS = shapes.PLAIN
+TE_PLAIN = EXCS[0]          # TraitError("message"): "this alternative / the partner rejects"
 TICK_CAP = 40
+# default-handling strata: shapes injected per change-handler tick / per other tick (after TE_PLAIN)
+SHAPES_PER_HANDLER_TICK = 8
+SHAPES_PER_OTHER_TICK = 1
+DEFAULT_STRATA = ("general", "sync", "property", "lifetime", "general", "deferred", "quiet", "adapt")
+HOSTILE_STRATA = ("general", "sync", "lifetime", "property")
 # Oracle rules of DESIGN.md C19/N (switchable so that their necessity can be re-verified):
 # notifications whose subject is a property whose getter was faulted post-commit are exempt ...
 EXEMPT_FAULTED_PROPERTY = True
@@ -231,7 +304,7 @@ class FP:
             self.fired = True
             # the instance is marked, not remembered: a reference from the harness would pin its
             # traceback, the handler frames and the objects whose lifetime is being compared
-            e = self.exc("injected at tick %d (%s)" % (n, kind))
+            e = self.exc.make(n, kind)
             e._vf_injected = True
             raise e
         return n
@@ -266,6 +339,13 @@ def _legacy_exc(obj, name, old, new):
     e = sys.exc_info()[1]
     if env is not None:
         env.chan.append(("legacy", type(e).__name__, getattr(e, "_vf_injected", False)))
+
+
+def _logged_exc(e):
+    # default-handling strata: what the library's own default handlers log
+    env = _CUR[0]
+    if env is not None:
+        env.chan.append(("log", type(e).__name__, getattr(e, "_vf_injected", False)))
 
 
 def _pre_tracer(obj, name, old, new, handler):
@@ -1559,7 +1639,7 @@ def first_pre_complaint(E, r, base):
         dv = diff_values(pv, r.vals, same)
         return "wrong-exception:none", ("the operation returned normally; state changed: %r; notifications: %r"
                                         % ([(k, pv.get(k), r.vals.get(k)) for k in dv[:4]], strip(r.log)[:4]))
-    if not (r.exc_type is E or issubclass(r.exc_type, TraitError)):
+    if not (r.exc_type is E.cls or issubclass(r.exc_type, TraitError)):
         return "wrong-exception:" + r.exc_type.__name__, "caller saw %s" % (r.exc_repr,)
     dv = diff_values(pv, r.vals, same)
     if dv:
@@ -1618,19 +1698,63 @@ def same_run(r, t, relax=None, ignore_injected=False):
 
 
 class History:
-    def __init__(self, ctx, h):
+    def __init__(self, ctx, h, mode="pushed"):
+        """mode 'pushed': the harness's own handlers are on both exception-handler stacks and
+        E("message") of the four classes is injected (the original enumeration).  mode 'default':
+        nothing is pushed (the library's default handling, observed through logging) and the
+        exceptions are drawn from the catalogue of shapes.  mode 'hostile': like 'default', only
+        change-handler ticks, first arguments with a hostile `==` (own key suffix, never stops)."""
         self.ctx = ctx
         self.h = h
-        rng = ctx.rng("hist", h)
-        self.stratum = stratum_of(h)
+        self.mode = mode
+        self.suffix = ""
+        self.keep_going = False
+        if mode == "pushed":
+            rng = ctx.rng("hist", h)
+            self.stratum = stratum_of(h)
+            self.shapes = None
+        else:
+            rng = ctx.rng("hist", mode, h)
+            cyc = DEFAULT_STRATA if mode == "default" else HOSTILE_STRATA
+            # h % 16 is the shard: every shard walks the cycle from a different start
+            self.stratum = cyc[(h // 16 + h % 16) % len(cyc)]
+            if mode == "default":
+                self.shapes = list(shapes.CATALOGUE)
+                ctx.rng("shapes", h).shuffle(self.shapes)
+            else:
+                self.shapes = list(shapes.HOSTILE)
+                self.keep_going = True
+            self.cursor = 0
         self.cfg, self.ops = gen_history(rng, self.stratum)
         self.env = Env()
         self.classes = make_classes(self.env, self.cfg)
         self.without = {}
 
+    def excs_for(self, kind, post):
+        """The exceptions injected at one tick."""
+        if self.shapes is None:
+            return EXCS
+        sh = self.shapes
+        if self.mode == "hostile":
+            return sh if kind.startswith("handler-") else ()
+        n = SHAPES_PER_HANDLER_TICK if kind.startswith("handler-") else SHAPES_PER_OTHER_TICK
+        out = [] if kind.startswith("handler-") else [TE_PLAIN]
+        for _ in range(n):
+            out.append(sh[self.cursor % len(sh)])
+            self.cursor += 1
+        return out
+
+    def viol(self, key, msg, w):
+        """Records a violation; True = the history stops here."""
+        self.ctx.violation(key + self.suffix, msg, w)
+        return not self.keep_going
+
     def witness(self, **kw):
         w = {"history": self.h, "stratum": self.stratum, "handlers": self.cfg,
              "ops": [repr(o) for o in self.ops]}
+        if self.mode != "pushed":
+            w["exception_handling"] = "library default (nothing pushed; observed through logging)"
+            w["history_family"] = self.mode
         w.update(kw)
         return w
 
@@ -1769,7 +1893,7 @@ class History:
                 if multi is not None:
                     while sub < len(op[2]) and k > multi[0][sub]:
                         sub += 1
-                for E in EXCS:
+                for E in self.excs_for(kind, post):
                     g = replay_prefix(env, classes, cfg, ops, j)
                     pre_g = g.snap()
                     if post:
@@ -1815,11 +1939,23 @@ class History:
                         ctx.violation("harness/nondeterministic-replay",
                                       "tick %d of op %d was %r in the twin, replay saw %r"
                                       % (k, j, kinds[:k], r.kinds[:k]),
-                                      self.witness(op=j, tick=k, exc=E.__name__))
+                                      self.witness(op=j, tick=k, exc=E.label))
                         return True
-                    ctx.sig(okind, kind, "post" if post else "pre", E.__name__, r.out[0] if r.out[0] == "ok" else r.out[1])
+                    if self.shapes is None:
+                        ctx.sig(okind, kind, "post" if post else "pre", E.__name__, r.out[0] if r.out[0] == "ok" else r.out[1])
+                    else:
+                        ctx.sig(self.mode, okind, kind, "post" if post else "pre", E.label,
+                                r.out[0] if r.out[0] == "ok" else r.out[1])
+                        ctx.count("shape:" + E.group)
+                        ctx.count("family:" + E.family)
+                        if kind.startswith("handler-"):
+                            ctx.count("handler-shape:%s:%s" % (kind[8:], E.group))
+                            if E.cls not in shapes.BASES:
+                                ctx.count("handler-faults:subclass-instance")
+                        if any(c[2] for c in r.chan):
+                            ctx.count("injected_exception_logged_by_default_handler")
                     info = dict(op_index=j, op=repr(op), tick=k, callback=kind,
-                                role="post-commit" if post else "pre-commit", exc=E.__name__,
+                                role="post-commit" if post else "pre-commit", exc=E.label,
                                 ticks_of_op=kinds, roles=["post" if x else "pre" for x in roles])
                     if post and twin.why[j].get(k):
                         info["commit_evidence"] = twin.why[j][k]
@@ -1848,26 +1984,28 @@ class History:
                             ctx.count("precommit_no_effect")
                         elif is_alt:
                             # clause (ii): "this alternative rejects"
-                            if E is TraitError:
+                            if E is TE_PLAIN:
                                 if k in twin.nat[j]:
                                     # the callback rejects this value anyway: the run must be
                                     # the fault-free run
                                     d = same_run(r, tr)
                                     ctx.count("alt_natural_reject_compared")
                                     if d is not None:
-                                        ctx.violation("pre-commit/%s/%s/%s" % (kind, okind, complaint),
+                                        if self.viol("pre-commit/%s/%s/%s" % (kind, okind, complaint),
                                                       "injecting TraitError where the alternative rejects "
-                                                      "anyway changed the run: %s" % d, self.witness(**info))
-                                        return True
+                                                      "anyway changed the run: %s" % d, self.witness(**info)):
+                                            return True
+                                        continue
                                     ref = twin
                                 else:
                                     ctx.count("alt_reference_runs")
                                     if newly_stale(r.stale, pre_stale, base.stale, tr.stale):
-                                        ctx.violation("pre-commit/%s/%s/cache-stale" % (kind, okind),
+                                        if self.viol("pre-commit/%s/%s/cache-stale" % (kind, okind),
                                                       "cached property %s stale"
                                                       % newly_stale(r.stale, pre_stale, base.stale, tr.stale),
-                                                      self.witness(**info))
-                                        return True
+                                                      self.witness(**info)):
+                                            return True
+                                        continue
                                 alt_ref = (r, g)
                             else:
                                 if alt_ref is None:
@@ -1875,18 +2013,20 @@ class History:
                                 d = same_run(r, alt_ref[0])
                                 ctx.count("alt_twin_compared")
                                 if d is not None:
-                                    ctx.violation("pre-commit/%s/%s/%s" % (kind, okind, complaint),
+                                    if self.viol("pre-commit/%s/%s/%s" % (kind, okind, complaint),
                                                   "%s (%s); nor is the run identical to the one in which the "
                                                   "alternative raised TraitError: %s" % (complaint, detail, d),
-                                                  self.witness(**info))
-                                    return True
+                                                  self.witness(**info)):
+                                        return True
+                                    continue
                                 ref = "alt"
                         else:
-                            ctx.violation("pre-commit/%s/%s/%s" % (kind, okind, complaint),
+                            if self.viol("pre-commit/%s/%s/%s" % (kind, okind, complaint),
                                           "%s raised in a pre-commit %s callback (tick %d of %r): %s -- %s"
-                                          % (E.__name__, kind, k, op, complaint, detail), self.witness(**info))
-                            return True
-                        if is_alt and E is TraitError and complaint is None:
+                                          % (E.label, kind, k, op, complaint, detail), self.witness(**info)):
+                                return True
+                            continue
+                        if is_alt and E is TE_PLAIN and complaint is None:
                             alt_ref = (r, g)
                     elif nested:
                         # ---------------- a deciding callback of a NESTED assignment -------
@@ -1899,26 +2039,29 @@ class History:
                         relax = None
                         ref = None
                         if r.out != tr.out:
-                            ctx.violation("post-commit/%s/exception-reached-caller" % kind,
+                            if self.viol("post-commit/%s/exception-reached-caller" % kind,
                                           "%s raised in a post-commit %s callback (tick %d of %r): caller saw %r "
                                           "(fault-free outcome %r) [a callback that decides the outcome ran "
                                           "after the operation's effect was already visible: %s]"
-                                          % (E.__name__, kind, k, op, r.exc_repr or r.out, tr.out,
-                                             info.get("commit_evidence", "?")), self.witness(**info))
-                            return True
+                                          % (E.label, kind, k, op, r.exc_repr or r.out, tr.out,
+                                             info.get("commit_evidence", "?")), self.witness(**info)):
+                                return True
+                            continue
                         if newly_stale(r.stale, pre_stale, tr.stale):
-                            ctx.violation("post-commit/%s/cache-stale" % kind,
+                            if self.viol("post-commit/%s/cache-stale" % kind,
                                           "%s raised in a nested %s callback (tick %d of %r): cached property "
-                                          "%s stale" % (E.__name__, kind, k, op, r.stale), self.witness(**info))
-                            return True
-                        if E is TraitError:
+                                          "%s stale" % (E.label, kind, k, op, r.stale), self.witness(**info)):
+                                return True
+                            continue
+                        if E is TE_PLAIN:
                             if k in twin.nat[j]:
                                 d = same_run(r, tr, ignore_injected=True)
                                 if d is not None:
-                                    ctx.violation("post-commit/%s/differs-from-rejection" % kind,
+                                    if self.viol("post-commit/%s/differs-from-rejection" % kind,
                                                   "injecting TraitError where the nested callback rejects anyway "
-                                                  "changed the run: %s" % d, self.witness(**info))
-                                    return True
+                                                  "changed the run: %s" % d, self.witness(**info)):
+                                        return True
+                                    continue
                                 ref = twin
                             else:
                                 ctx.count("nested_reference_runs")
@@ -1927,11 +2070,12 @@ class History:
                             d = same_run(r, alt_ref[0], ignore_injected=True)
                             ctx.count("nested_rejection_twin_compared")
                             if d is not None:
-                                ctx.violation("post-commit/%s/differs-from-rejection" % kind,
+                                if self.viol("post-commit/%s/differs-from-rejection" % kind,
                                               "%s raised in a nested %s callback (tick %d of %r): the run differs "
                                               "from the one in which the callback rejected with TraitError: %s"
-                                              % (E.__name__, kind, k, op, d), self.witness(**info))
-                                return True
+                                              % (E.label, kind, k, op, d), self.witness(**info)):
+                                    return True
+                                continue
                             ref = "alt"
                     else:
                         # ---------------- post-commit: notification phase -----------
@@ -1970,7 +2114,11 @@ class History:
                         if complaint is None:
                             mine = [c for c in r.chan if c[2]]
                             others = [c[:2] for c in r.chan if not c[2]]
-                            if not mine:
+                            if not mine and self.shapes is not None:
+                                # default handling: the statement does not say that the failure is
+                                # logged (the default handler documents cases it cannot log)
+                                ctx.count("injected_exception_not_logged")
+                            elif not mine:
                                 complaint = "exception-vanished"
                             elif others != [c[:2] for c in tr.chan]:
                                 # something else failed inside a notifier because of the fault
@@ -1987,11 +2135,21 @@ class History:
                             if not kind.startswith(("handler-", "getter", "cached-getter")):
                                 note = (" [a callback that decides the outcome ran after the operation's "
                                         "effect was already visible]")
-                            ctx.violation("post-commit/%s/%s" % (kind, complaint),
+                            if self.mode == "hostile":
+                                # one mechanism, several faces: the failure leaves the failing handler's
+                                # notifier and surfaces at the caller, or an enclosing notification layer
+                                # contains (and reports) it after the remaining notifiers -- user handlers
+                                # or traits' own listener maintenance -- were skipped
+                                if complaint in ("exception-reached-caller", "other-handler-skipped",
+                                                 "operation-incomplete", "log-differs", "secondary-exception"):
+                                    complaint = "handler-failure-not-contained"
+                                complaint += "/%s(eq-hostile-first-argument)" % E.__name__
+                            if self.viol("post-commit/%s/%s" % (kind, complaint),
                                           "%s raised in a post-commit %s callback (tick %d of %r): %s -- %s%s"
-                                          % (E.__name__, kind, k, op, complaint, detail, note),
-                                          self.witness(**info))
-                            return True
+                                          % (E.label, kind, k, op, complaint, detail, note),
+                                          self.witness(**info)):
+                                return True
+                            continue
                         ref = twin
                         if kind == "cached-getter" and RELAX_OLD_OF_FAULTED_CACHED_PROPERTY:
                             relax = tr.subj[k - 1]
@@ -2019,13 +2177,16 @@ class History:
                     if d is not None:
                         info["diverged_at"] = d[0]
                         info["diverging_op"] = repr(ops[d[0]])
-                        ctx.violation("afterwards/%s/%s/diverged" % (kind, okind),
+                        if self.viol("afterwards/%s/%s/diverged%s"
+                                     % (kind, okind, "/%s(eq-hostile-first-argument)" % E.__name__
+                                        if self.mode == "hostile" else ""),
                                       "after %s in a %s %s callback (tick %d of op %d %r) op %d %r behaves "
                                       "differently from the never-faulted twin: %s"
-                                      % (E.__name__, "post-commit" if post else "pre-commit", kind, k, j, op,
-                                         d[0], ops[d[0]], d[1]), self.witness(**info))
-                        return True
-        if self.h < 48:
+                                      % (E.label, "post-commit" if post else "pre-commit", kind, k, j, op,
+                                         d[0], ops[d[0]], d[1]), self.witness(**info)):
+                            return True
+                        continue
+        if self.h < 48 and self.shapes is None:
             ctx.sample({"history": self.h, "handlers": cfg, "ops": [repr(o) for o in ops],
                         "faults_enumerated": ninj})
         return False
@@ -2043,7 +2204,58 @@ class _Cont:
         self.res = res
 
 
+class _Sub:
+    """The counters of the default-handling strata live under their own prefix, so that the gates of
+    the original enumeration keep measuring the original enumeration."""
+
+    class _View:
+        def __init__(self, d, p):
+            self.d, self.p = d, p
+
+        def get(self, k, default=None):
+            return self.d.get(self.p + k, default)
+
+    def __init__(self, ctx, prefix):
+        self._c = ctx
+        self._p = prefix
+        self.counters = _Sub._View(ctx.counters, prefix)
+
+    def count(self, name, n=1):
+        self._c.count(self._p + name, n)
+
+    def __getattr__(self, a):
+        return getattr(self._c, a)
+
+
+def run_default_handling(ctx):
+    """Histories under the library's DEFAULT notification exception handling: nothing is pushed on
+    either handler stack (this runs before the harness pushes its own), what they log is
+    captured through the logging module, exceptions come from the catalogue of shapes."""
+    shapes.self_test()
+    old_tracers = get_change_event_tracers()
+    set_change_event_tracers(_pre_tracer, _post_tracer)
+    try:
+        with warnings.catch_warnings(), shapes.DefaultHandling(_logged_exc) as dh:
+            warnings.simplefilter("ignore")
+            for mode, prefix, nh in (("default", "dflt:", ctx.scale(96, 1600)),
+                                     ("hostile", "hostile:", ctx.scale(16, 320))):
+                sub = _Sub(ctx, prefix)
+                for h in range(nh):
+                    if not ctx.mine(h):
+                        continue
+                    if not ctx.begin("%s%d" % (prefix, h)):
+                        continue
+                    try:
+                        History(sub, h, mode).run()
+                    finally:
+                        ctx.end()
+            ctx.count("dflt:console_fallback_writes", dh.console.writes)
+    finally:
+        set_change_event_tracers(*old_tracers)
+
+
 def run(ctx):
+    run_default_handling(ctx)
     push_exception_handler(_legacy_exc, reraise_exceptions=False, main=True)
     obsapi.push_exception_handler(_obs_exc)
     old_tracers = get_change_event_tracers()
